@@ -104,7 +104,7 @@ def run(ctx):
     rng = random.Random(ctx.seed)
     quick = ctx.tier == "quick"
     cases, meta = [], {}
-    nh = 16 if quick else 100
+    nh = 60 if quick else 200
     for h in range(nh):
         paths = gen_paths(rng, rng.randint(3, 12))
         sessions = [gen_session(rng, paths, rng.randint(1, 5 if quick else 10)) for _ in range(rng.randint(1, 3))]
@@ -114,7 +114,7 @@ def run(ctx):
         cases.append(("H%d" % h, sc))
         meta["H%d" % h] = (paths, sessions)
     # recompaction (explicit) with a subset of live outputs
-    for h in range(10 if quick else 80):
+    for h in range(30 if quick else 120):
         paths = gen_paths(rng, rng.randint(3, 10))
         sessions = [gen_session(rng, paths, rng.randint(3, 20))]
         outs = list(dict.fromkeys(r[0] for r in sessions[0]))
@@ -137,7 +137,7 @@ def run(ctx):
         cases.append(("R%d" % h, sc))
         meta["R%d" % h] = (paths, sessions, set(live_plus), extra)
     # automatic recompaction: > 1000 dep records, > 3x unique
-    for h in range(1 if quick else 4):
+    for h in range(2 if quick else 6):
         paths = gen_paths(rng, 6)
         outs = paths[:3]
         recs = [(rng.choice(outs), rng.randint(1, 10 ** 6), [rng.choice(paths) for _ in range(rng.randint(0, 3))]) for _ in range(1100)]
@@ -209,7 +209,7 @@ def run(ctx):
         # damage after a valid prefix (prefix ends at a record boundary)
         pm = parse_deps_log(B)
         bounds = record_bounds(B)
-        for k in range(40 if quick else 400):
+        for k in range(120 if quick else 600):
             cut = rng.choice(bounds)
             tail = damage_tail(rng, B, cut, len(parse_deps_log(B[:cut])["paths"]))
             data = B[:cut] + tail
